@@ -158,6 +158,31 @@ fn check_filter(g: &AdjacencyMap, m: &UModel, keep: &BTreeSet<usize>, name: &str
             reprs::same(&nested, &mi, &format!("{name}::filter_vertices({keep:?}) with a predicate that itself calls filter_vertices (mode {mode})"))?;
         }
     }
+    // predicates with state (a budget, a coin): the definition does not say
+    // which vertices such a predicate selects, but the result must still be a
+    // valid digraph inside the operand
+    if m.order() <= 64 {
+        for mode in 0..4_usize {
+            let calls = std::cell::Cell::new(0_usize);
+            let budget = [1, 2, keep.len().max(1), m.order() / 2 + 1][mode];
+            let r = guarded(|| {
+                g.filter_vertices(|_| {
+                    let k = calls.get();
+                    calls.set(k + 1);
+                    if mode == 3 { k % 3 != 1 } else { k < budget }
+                })
+            })
+            .map_err(|p| format!("{name}::filter_vertices with a stateful predicate panicked: {p}"))?;
+            let what = format!("{name}::filter_vertices with a stateful predicate (mode {mode})");
+            valid(&r, &what)?;
+            for v in r.vertices() {
+                ensure!(m.v.contains(&v), "{what}: vertex {v} is not a vertex of the operand");
+            }
+            for (u, v) in r.arcs() {
+                ensure!(m.has(u, v), "{what}: arc ({u}, {v}) is not an arc of the operand");
+            }
+        }
+    }
     ensure!(*g == g0, "{name}: filter_vertices changed its operand");
     Ok(())
 }
@@ -224,7 +249,7 @@ impl Prop for C11 {
     type Case = Case;
     const ID: &'static str = "C11";
     const NUM: u64 = 11;
-    const RULE: &'static str = "pairs of digraphs (equal and different orders 1..40 quick / 1..100 thorough; row counts drawn relative to the generated CPU count k: k-1, k, k+1, 2k+1, 3k-1, 5k+3) in AdjacencyList, AdjacencyMap, AdjacencyMatrix, EdgeList (+ AdjacencyListWeighted<isize> and, up to order 64, the weight types (), u8, i128, [u16; 3], Option<i8> for converse), and pairs of AdjacencyMap digraphs with non-contiguous ids (interleaved, overlapping, disjoint key sets) built through the public API; a non-empty vertex subset for filter_vertices; k in 1..=16 set with sched_setaffinity. About one random case in 25 has a large order (17..140, weighted towards 63..66, 96, 127..130, 140; at most 700 arcs). A low-rate 'huge' leg adds digraphs of 200..3100 vertices with O(n) arcs (paths, circuits, stars, wheels, trees, one row of exactly 255/256/257 out-neighbours, arcs in the last rows, complete below 300). Operations are also applied to the results of other operations (union.complement.converse, complement.union(converse), complement/converse commuting, complement/union/converse of a filter_vertices result) for order <= 64; up to order 24 filter_vertices is also called with a predicate that itself calls filter_vertices. Non-trivial = both operands have a common arc and a private arc each, and (k < row count or the vertex set is not 0..|V|); distinct = distinct serialised case.";
+    const RULE: &'static str = "pairs of digraphs (equal and different orders 1..40 quick / 1..100 thorough; row counts drawn relative to the generated CPU count k: k-1, k, k+1, 2k+1, 3k-1, 5k+3) in AdjacencyList, AdjacencyMap, AdjacencyMatrix, EdgeList (+ AdjacencyListWeighted<isize> and, up to order 64, the weight types (), u8, i128, [u16; 3], Option<i8> for converse), and pairs of AdjacencyMap digraphs with non-contiguous ids (interleaved, overlapping, disjoint key sets) built through the public API; a non-empty vertex subset for filter_vertices; k in 1..=16 set with sched_setaffinity. About one random case in 25 has a large order (17..140, weighted towards 63..66, 96, 127..130, 140; at most 700 arcs). A low-rate 'huge' leg adds digraphs of 200..3100 vertices with O(n) arcs (paths, circuits, stars, wheels, trees, one row of exactly 255/256/257 out-neighbours, arcs in the last rows, complete below 300). Operations are also applied to the results of other operations (union.complement.converse, complement.union(converse), complement/converse commuting, complement/union/converse of a filter_vertices result) for order <= 64; up to order 24 filter_vertices is also called with a predicate that itself calls filter_vertices, and up to order 64 with stateful predicates (budgets, every third call false), whose result must still be a valid digraph inside the operand. Non-trivial = both operands have a common arc and a private arc each, and (k < row count or the vertex set is not 0..|V|); distinct = distinct serialised case.";
     const ASSUMPTIONS: &'static [&'static str] = &[
         "union of fixed-order representations is judged with V = 0..max(order)",
         "filter_vertices is only called with a selection that keeps at least one vertex",
